@@ -279,7 +279,9 @@ func mkParse(r *hlib.SplitMix64, class string) parseCase {
 	if err == nil && n != nil {
 		c.Impl = netJ{OK: true, IP: hex.EncodeToString(n.IP), Mask: hex.EncodeToString(n.Mask)}
 		// what would be probed: the first addresses of the real generator on the accepted net
-		if len(n.IP) == 4 && len(n.Mask) == 4 {
+		ones, _ := n.Mask.Size()
+		top := len(n.IP) == 4 && (n.IP[0] == 255 || n.IP[0] == 0 || ones < 8) // nets touching either end of the address space
+		if len(n.IP) == 4 && len(n.Mask) == 4 && !top {
 			o := runIPs(n, c.Seed, 8)
 			c.Gen = &o
 		} else {
@@ -348,11 +350,9 @@ func mkIps(r *hlib.SplitMix64, class string, full int) ipsCase {
 		c.Obs = ipsObs{Err: tgt.ErrClass(err)}
 		return c
 	}
-	if child {
-		c.Obs = runIPsChild(c.IP, c.Mask, true, c.Seed, c.Limit)
-	} else {
-		c.Obs = runIPs(&net.IPNet{IP: ipb, Mask: mask}, c.Seed, c.Limit)
-	}
+	// always in a child process: a generator that steps outside the 32-bit range panics in its goroutine
+	_ = child
+	c.Obs = runIPsChild(c.IP, c.Mask, true, c.Seed, c.Limit)
 	return c
 }
 
